@@ -217,3 +217,6 @@ func Word(addr []byte) []byte {
 	copy(w[32-len(addr):], addr)
 	return w
 }
+
+// BalanceReaderInit is the init code of the balance-reader template (used by scenario templates).
+func BalanceReaderInit() []byte { return Deploy(balanceReader()) }
